@@ -49,6 +49,7 @@ struct Cfg {
     earlier_levels: Vec<u32>,
     earlier_chunks: Vec<usize>,
     ae: usize,
+    ae_second_line: Option<usize>,
     ae_present: bool,
     method: &'static str,
     as_parts: bool,
@@ -97,6 +98,7 @@ fn gen_cfg(t: &mut Tape, focus: &str) -> Cfg {
         earlier_levels,
         earlier_chunks,
         ae,
+        ae_second_line: if matches!(focus, "C17" | "C15") && t.chance(1, 6) { Some(1 + t.draw(AE.len() as u32 - 1) as usize) } else { None },
         ae_present: ae_present && ae != 0,
         method: match focus {
             "C17" | "C15" => ["GET", "HEAD", "POST", "GET", "PUT"][t.draw(5) as usize],
@@ -127,6 +129,11 @@ fn build(cfg: &Cfg) -> (http::Response<SimBody>, Option<W>, bool) {
     let mut b = http::Request::builder().method(cfg.method).uri("/s");
     if cfg.ae_present {
         b = b.header("accept-encoding", AE[cfg.ae].1);
+        // Some proxies split one field into several lines; should_gzip (the reference) looks at
+        // the first line only.
+        if let Some(second) = cfg.ae_second_line {
+            b = b.header("accept-encoding", AE[second].1);
+        }
     }
     let req = b.body(()).unwrap();
     let expect_gzip = http_serve::should_gzip(req.headers()) && cfg.level > 0;
@@ -165,18 +172,21 @@ struct Sim {
     accepted_after_body_drop: usize,
     first_fail_after_drop: bool,
     abort_at_step: Option<usize>,
+    /// hyper's HTTP/1 framing: when the body's size hint is exact at the moment the response
+    /// head is written, hyper sends Content-Length and stops reading the body after that many
+    /// bytes. None = not decided yet; Some(None) = chunked; Some(Some(n)) = n bytes.
+    hyper_framing: bool,
+    framing: Option<Option<u64>>,
     /// Lower bound of bytes surely sitting unflushed in the raw writer (None = unknown).
     unflushed: Option<usize>,
     /// Bytes accepted since the last successful flush (any coding).
     since_flush: usize,
+    /// Bytes accepted by writes invoked after the body was dropped and not yet followed by a flush.
+    ok_after_drop_unflushed: usize,
     frames: u64,
     empty_frames: u64,
     ops: Vec<String>,
     panic: Option<String>,
-    /// What flate2 alone produces when fed the same calls into a plain Vec (classification of
-    /// known finding F6 only; never the deciding oracle).
-    reference: Option<flate2::write::GzEncoder<Vec<u8>>>,
-    ref_ok: bool,
 }
 
 impl Sim {
@@ -205,6 +215,20 @@ impl Sim {
     /// One poll (with its sample). Returns the step.
     fn poll(&mut self) -> Option<Step> {
         let s = self.sample()?;
+        if self.hyper_framing {
+            if self.framing.is_none() {
+                self.framing = Some(if s.upper == Some(s.lower) { Some(s.lower) } else { None });
+            }
+            if let Some(Some(n)) = self.framing {
+                if self.log.terminal.is_none() && self.log.total >= n as u128 {
+                    // Content-Length satisfied: hyper is done with this body.
+                    if self.log.stopped_by_eos.is_none() {
+                        self.log.stopped_by_eos = Some(self.log.steps.len());
+                    }
+                    return None;
+                }
+            }
+        }
         let body = self.body.as_mut()?;
         let (_flag, waker) = new_waker();
         let mut cx = Context::from_waker(&waker);
@@ -284,13 +308,9 @@ impl Sim {
                 let k = (*k).min(n);
                 self.accepted.extend_from_slice(&buf[..k]);
                 self.since_flush += k;
-                if let Some(rf) = self.reference.as_mut() {
-                    if rf.write(&buf).ok() != Some(k) {
-                        self.ref_ok = false;
-                    }
-                }
                 if self.body_gone {
                     self.accepted_after_body_drop += k;
+                    self.ok_after_drop_unflushed += k;
                 }
                 if !self.gzip {
                     self.unflushed = match self.unflushed {
@@ -320,11 +340,7 @@ impl Sim {
             Ok(()) => {
                 self.unflushed = Some(0);
                 self.since_flush = 0;
-                if let Some(rf) = self.reference.as_mut() {
-                    if rf.flush().is_err() {
-                        self.ref_ok = false;
-                    }
-                }
+                self.ok_after_drop_unflushed = 0;
             }
             Err(_) => {
                 self.writer_dead = true;
@@ -353,7 +369,7 @@ pub fn run(ctx: &mut Ctx) -> Result<RunOut, Violation> {
     // then, half of the time, a complete earlier response on this thread with its own drawn
     // configuration: state carried from an earlier call is part of the history.
     {
-        let warm = Cfg { chunk: 16, level: 6, earlier_levels: Vec::new(), earlier_chunks: Vec::new(), ae: 9, ae_present: true, method: "GET", as_parts: false, payload: 0, seed: 0 };
+        let warm = Cfg { chunk: 16, level: 6, earlier_levels: Vec::new(), earlier_chunks: Vec::new(), ae: 9, ae_second_line: None, ae_present: true, method: "GET", as_parts: false, payload: 0, seed: 0 };
         let _ = catch(|| drop(build(&warm)));
     }
     if ctx.tape.chance(1, 2) {
@@ -369,6 +385,7 @@ pub fn run(ctx: &mut Ctx) -> Result<RunOut, Violation> {
         ctx.stats.bump("prelude_builds");
     }
     let cfg = gen_cfg(&mut ctx.tape, focus);
+    http_serve::verif::reset_chunker_bytes();
     let built = catch(|| build(&cfg));
     let (resp, w, expect_gzip) = match built {
         Ok(v) => v,
@@ -401,25 +418,27 @@ pub fn run(ctx: &mut Ctx) -> Result<RunOut, Violation> {
         accepted_after_body_drop: 0,
         first_fail_after_drop: false,
         abort_at_step: None,
+        hyper_framing: false,
+        framing: None,
         unflushed: Some(0),
         since_flush: 0,
+        ok_after_drop_unflushed: 0,
         frames: 0,
         empty_frames: 0,
         ops: Vec::new(),
         panic: None,
-        reference: None,
-        ref_ok: true,
         cfg,
     };
-    if hdr_gzip && focus == "C09" {
-        sim.reference = Some(flate2::write::GzEncoder::new(Vec::new(), flate2::Compression::new(sim.cfg.level)));
+    if focus == "C11" && ctx.tape.chance(1, 2) {
+        sim.hyper_framing = true;
     }
+
     let cfg_desc = format!(
         "chunk={} level={}{} accept-encoding={} method={} repr={} payload={}",
         sim.cfg.chunk,
         sim.cfg.level,
         if sim.cfg.earlier_levels.is_empty() && sim.cfg.earlier_chunks.is_empty() { String::new() } else { format!(" (after earlier builder calls levels {:?} chunks {:?})", sim.cfg.earlier_levels, sim.cfg.earlier_chunks) },
-        if sim.cfg.ae_present { AE[sim.cfg.ae].0 } else { "absent" },
+        if sim.cfg.ae_present { format!("{}{}", AE[sim.cfg.ae].0, sim.cfg.ae_second_line.map(|l| format!(" + second line {}", AE[l].0)).unwrap_or_default()) } else { "absent".to_string() },
         sim.cfg.method,
         if sim.cfg.as_parts { "Parts" } else { "Request" },
         sim.cfg.payload
@@ -443,7 +462,7 @@ pub fn run(ctx: &mut Ctx) -> Result<RunOut, Violation> {
             };
         }
         // Same headers as the GET twin, body delivers nothing.
-        let twin = Cfg { method: "GET", earlier_levels: sim.cfg.earlier_levels.clone(), earlier_chunks: sim.cfg.earlier_chunks.clone(), chunk: sim.cfg.chunk, level: sim.cfg.level, ae: sim.cfg.ae, ae_present: sim.cfg.ae_present, as_parts: sim.cfg.as_parts, payload: 0, seed: 0 };
+        let twin = Cfg { method: "GET", ae_second_line: sim.cfg.ae_second_line, earlier_levels: sim.cfg.earlier_levels.clone(), earlier_chunks: sim.cfg.earlier_chunks.clone(), chunk: sim.cfg.chunk, level: sim.cfg.level, ae: sim.cfg.ae, ae_present: sim.cfg.ae_present, as_parts: sim.cfg.as_parts, payload: 0, seed: 0 };
         let (gresp, _gw, _) = build(&twin);
         let hs = |r: &http::HeaderMap| {
             let mut v: Vec<(String, Vec<u8>)> = r.iter().map(|(k, v)| (k.as_str().to_string(), v.as_bytes().to_vec())).collect();
@@ -590,13 +609,9 @@ pub fn run(ctx: &mut Ctx) -> Result<RunOut, Violation> {
                             sim.since_flush += n;
                             if sim.body_gone {
                                 sim.accepted_after_body_drop += n;
+                                sim.ok_after_drop_unflushed += n;
                             }
                             sim.unflushed = None;
-                            if let Some(rf) = sim.reference.as_mut() {
-                                if rf.write_all(&buf).is_err() {
-                                    sim.ref_ok = false;
-                                }
-                            }
                         }
                         Err(_) => {
                             // How much was accepted before the failure is unknowable through
@@ -629,10 +644,11 @@ pub fn run(ctx: &mut Ctx) -> Result<RunOut, Violation> {
             }
             4 | 5 => {
                 kinds.push("flush");
-                // Bytes that this flush surely has to hand over: for identity coding a partial
-                // chunk known to sit in the writer, for gzip anything accepted since the last
-                // successful flush (an implementation may skip a flush with nothing new).
-                let surely_unflushed = if sim.gzip { sim.since_flush > 0 } else { sim.unflushed.map(|u| u > 0).unwrap_or(false) };
+                // Bytes this flush surely has to deal with, whatever the chunking policy: bytes
+                // that a write invoked *after the body was dropped* reported as accepted. Either
+                // they are still buffered (then this flush must hand them over and fail) or that
+                // write completed a chunk (then it should have failed itself).
+                let surely_unflushed = sim.ok_after_drop_unflushed > 0;
                 let after_drop = sim.body_gone;
                 let dead_before = sim.writer_dead || sim.aborted;
                 let Some(r) = sim.flush() else { break };
@@ -658,18 +674,14 @@ pub fn run(ctx: &mut Ctx) -> Result<RunOut, Violation> {
                         }
                         if dec != sim.accepted {
                             let detail = format!("{cfg_desc}: after flush {} bytes were accepted but the consumer can decode only {} (equal prefix {}); ops {:?}", sim.accepted.len(), dec.len(), common_prefix(&dec, &sim.accepted), sim.ops);
-                            // Whose fault? If flate2 alone, fed the same calls into a plain Vec,
-                            // has emitted exactly the bytes the consumer received, http-serve
-                            // handed over everything it was given: the compressor withheld data.
-                            let same_as_flate2_alone = sim.ref_ok
-                                && sim
-                                    .reference
-                                    .as_ref()
-                                    .map(|r| r.get_ref().len() == sim.delivered.len() && gunzip_prefix(r.get_ref()).0 == dec)
-                                    .unwrap_or(false);
+                            // Whose fault? The chunk writer counts (verif-hooks) every byte it
+                            // accepted on this thread. If the consumer has received exactly that
+                            // many raw bytes, http-serve handed over everything it was given: the
+                            // missing tail is still inside the compressor in front of it.
+                            let same_as_flate2_alone = sim.gzip && http_serve::verif::chunker_bytes() == sim.delivered.len() as u64;
                             if same_as_flate2_alone {
                                 ctx.stats.bump("c09_compressor_withheld_bytes_after_flush");
-                                ctx.report(Violation { prop: "C09", oracle: "compressor-withholds-flushed-bytes", msg: format!("flate2 alone withholds the same bytes; {detail}") })?;
+                                ctx.report(Violation { prop: "C09", oracle: "compressor-withholds-flushed-bytes", msg: format!("the chunk writer handed over every byte it was given ({} bytes), the compressor withholds the rest; {detail}", sim.delivered.len()) })?;
                             } else {
                                 return violation(focus_static(focus), "flushed-bytes-not-available", detail);
                             }
@@ -900,7 +912,7 @@ fn run_release(ctx: &mut Ctx) -> Result<RunOut, Violation> {
     let fill_total: usize = if chunk < 64 { 4096 + t.draw(8192) as usize } else if gzip { 100_000 + t.draw(60_000) as usize } else { 300_000 + t.draw(200_000) as usize };
     let step = [chunk, 1, 3 * chunk + 1, 1024][t.draw(4) as usize].max(1);
     let seed = t.draw(u32::MAX) as u64;
-    let cfg = Cfg { chunk, level, earlier_levels: Vec::new(), earlier_chunks: Vec::new(), ae: if gzip { 1 } else { 0 }, ae_present: gzip, method: "GET", as_parts: false, payload: 0, seed };
+    let cfg = Cfg { chunk, level, earlier_levels: Vec::new(), earlier_chunks: Vec::new(), ae: if gzip { 1 } else { 0 }, ae_second_line: None, ae_present: gzip, method: "GET", as_parts: false, payload: 0, seed };
     let desc = format!("release scenario chunk={chunk} gzip={gzip} level={level} fill={fill_total} write-size={step} polls-before-drop={consume_some}");
     ctx.ev("release", chunk as u64, fill_total as u64);
     // Everything the harness needs is allocated before the measured window.
@@ -1006,7 +1018,7 @@ fn run_big_backlog(ctx: &mut Ctx) -> Result<RunOut, Violation> {
     let total = threshold + 2 * chunk + t.draw(4096) as usize;
     let end_with_abort = focus == "C11";
     let seed = t.draw(u32::MAX) as u64;
-    let cfg = Cfg { chunk, level: 0, earlier_levels: Vec::new(), earlier_chunks: Vec::new(), ae: 0, ae_present: false, method: "GET", as_parts: false, payload: 1, seed };
+    let cfg = Cfg { chunk, level: 0, earlier_levels: Vec::new(), earlier_chunks: Vec::new(), ae: 0, ae_second_line: None, ae_present: false, method: "GET", as_parts: false, payload: 1, seed };
     let desc = format!("backlog scenario: chunk={chunk}, {total} bytes written in {piece}-byte pieces before the first poll (threshold from the source dictionary: {threshold}), then {}", if end_with_abort { "abort" } else { "drop" });
     ctx.ev("backlog", total as u64, chunk as u64);
     let (resp, w, _) = build(&cfg);
